@@ -4,85 +4,103 @@ From Coq Require Import List Arith Bool.
 From TLXV Require Import C12.CPtr C12.CPtrProofs C12.UnifyProofs C12.Conc C12.ConcProofs C12.Examples.
 Import ListNotations.
 
-(** Sequential part.  For every number [n] of handle variables and every history [ops] of constructing (default,
+(** Sequential part.  [nodel v] says that handle variable [v] carries the no-operation Deleter
+    (tlx::CountingPtrNoDelete<T>); every theorem holds for every such assignment, i.e. for any mixture of default and
+    no-delete handles, also on the same object.  [dcount] = calls of [delete ptr]; [orph] = calls of the no-operation
+    Deleter (object left alive without owner).  For every number [n] of handle variables and every history [ops] of constructing (default,
     nullptr, from a raw pointer, fresh object), copying, moving, converting, assigning (including self- and
     alias-assignment), swapping, resetting, unifying and destroying handles, for every object [o] ever created:
     the reference count equals the number of handle variables pointing to the object ... *)
-Theorem C12_count_is_handles : forall n ops o c,
-  let s := run (init n) ops in
+Theorem C12_count_is_handles : forall nodel n ops o c,
+  let s := run nodel (init n) ops in
   nth_error (cells s) o = Some c -> rc c = handles s o.
 Proof. exact count_is_handles. Qed.
 Print Assumptions C12_count_is_handles.
 
 (** ... the Deleter has run exactly once if no handle points to it and not at all otherwise ... *)
-Theorem C12_destroyed_iff_no_handle : forall n ops o c,
-  let s := run (init n) ops in
-  nth_error (cells s) o = Some c -> dcount c = (if handles s o =? 0 then 1 else 0).
+Theorem C12_destroyed_iff_no_handle : forall nodel n ops o c,
+  let s := run nodel (init n) ops in
+  nth_error (cells s) o = Some c -> dcount c + orph c = (if handles s o =? 0 then 1 else 0).
 Proof. exact destroyed_iff_no_handle. Qed.
 Print Assumptions C12_destroyed_iff_no_handle.
 
+(** With default-deleter handles only (the property as stated): the object is destroyed ([delete]) exactly once iff no
+    handle points to it. *)
+Theorem C12_default_destroyed_iff_no_handle : forall nodel, (forall v, nodel v = false) -> forall n ops o c,
+  let s := run nodel (init n) ops in
+  nth_error (cells s) o = Some c -> dcount c = (if handles s o =? 0 then 1 else 0) /\ orph c = 0.
+Proof. exact default_destroyed_iff_no_handle. Qed.
+Print Assumptions C12_default_destroyed_iff_no_handle.
+
 (** ... it runs in exactly the step in which that number drops to zero (objects stay in the heap list, payloads
     never change, an object without handles never gets one back) ... *)
-Theorem C12_destroy_at_the_drop : forall n ops op o c,
-  let s := run (init n) ops in
-  let s' := fst (step s op) in
+Theorem C12_destroy_at_the_drop : forall nodel n ops op o c,
+  let s := run nodel (init n) ops in
+  let s' := fst (step nodel s op) in
   nth_error (cells s) o = Some c ->
   exists c', nth_error (cells s') o = Some c' /\
-    dcount c' = dcount c + (if (0 <? handles s o) && (handles s' o =? 0) then 1 else 0) /\
+    dcount c' + orph c' = dcount c + orph c + (if (0 <? handles s o) && (handles s' o =? 0) then 1 else 0) /\
+    dcount c <= dcount c' /\ orph c <= orph c' /\
     (handles s o = 0 -> handles s' o = 0) /\ val c' = val c.
 Proof. exact destroy_at_the_drop. Qed.
 Print Assumptions C12_destroy_at_the_drop.
 
 (** ... and no operation, at any point inside its body, touches the counter of a destroyed object, decrements a
     zero counter or follows a pointer to no object (the ledger flag of the model). *)
-Theorem C12_ledger_clean : forall n ops, bad (run (init n) ops) = false.
+Theorem C12_ledger_clean : forall nodel n ops, bad (run nodel (init n) ops) = false.
 Proof. exact ledger_clean. Qed.
 Print Assumptions C12_ledger_clean.
 
-Theorem C12_handles_point_to_live_objects : forall n ops v o,
-  let s := run (init n) ops in
-  getv s v = Live (Some o) -> exists c, nth_error (cells s) o = Some c /\ dcount c = 0 /\ 0 < rc c.
+Theorem C12_handles_point_to_live_objects : forall nodel n ops v o,
+  let s := run nodel (init n) ops in
+  getv s v = Live (Some o) -> exists c, nth_error (cells s) o = Some c /\ dcount c = 0 /\ orph c = 0 /\ 0 < rc c.
 Proof. exact handles_point_to_objects. Qed.
 Print Assumptions C12_handles_point_to_live_objects.
 
 (** When finally every variable is destroyed, every object ever created has been destroyed exactly once. *)
-Theorem C12_all_destroyed_at_end : forall n ops o c,
-  let s := finish (run (init n) ops) in
-  nth_error (cells s) o = Some c -> dcount c = 1 /\ rc c = 0.
+Theorem C12_all_destroyed_at_end : forall nodel n ops o c,
+  let s := finish nodel (run nodel (init n) ops) in
+  nth_error (cells s) o = Some c -> dcount c + orph c = 1 /\ rc c = 0.
 Proof. exact all_destroyed_at_end. Qed.
 Print Assumptions C12_all_destroyed_at_end.
 
 (** The aliasing cases are no-ops (early return on [ptr_ == other.ptr_]); in particular a move from an alias does
     not empty the source. *)
-Theorem C12_alias_assignments : forall s v w,
+Theorem C12_alias_assignments : forall nodel s v w,
   ptr_of s v = ptr_of s w ->
-  copy_assign s v w = s /\ move_assign s v w = s /\ conv_copy_assign s v w = s /\ conv_move_assign s v w = s.
-Proof. intros s v w H. repeat split; try apply copy_assign_alias; try apply move_assign_alias; exact H. Qed.
+  copy_assign nodel s v w = s /\ move_assign nodel s v w = s /\ conv_copy_assign nodel s v w = s /\ conv_move_assign nodel s v w = s.
+Proof. intros nodel s v w H. repeat split; try apply copy_assign_alias; try apply move_assign_alias; exact H. Qed.
 Print Assumptions C12_alias_assignments.
 
 (** unify(): a unique handle is left alone; a shared one is re-pointed to a fresh clone with the same payload of
     which it is the only owner (use_count 1, alive); no other variable changes. *)
-Theorem C12_unify_spec : forall n ops v o c,
-  let s := run (init n) ops in
+Theorem C12_unify_spec : forall nodel n ops v o c,
+  let s := run nodel (init n) ops in
   getv s v = Live (Some o) -> nth_error (cells s) o = Some c ->
-  (rc c = 1 -> vars (unify s v) = vars s /\ cells (unify s v) = cells s) /\
+  (rc c = 1 -> vars (unify nodel s v) = vars s /\ cells (unify nodel s v) = cells s) /\
   (rc c <> 1 ->
-     vars (unify s v) = upd (vars s) v (Live (Some (length (cells s)))) /\
-     exists c', nth_error (cells (unify s v)) (length (cells s)) = Some c' /\
+     vars (unify nodel s v) = upd (vars s) v (Live (Some (length (cells s)))) /\
+     exists c', nth_error (cells (unify nodel s v)) (length (cells s)) = Some c' /\
                 rc c' = 1 /\ dcount c' = 0 /\ val c' = val c).
 Proof. exact unify_spec. Qed.
 Print Assumptions C12_unify_spec.
 
+(** A release through a no-delete handle never destroys: [dcount] is unchanged by it. *)
+Theorem C12_nodelete_release_never_destroys : forall s p o c c',
+  nth_error (cells s) o = Some c -> nth_error (cells (dec_reference true s p)) o = Some c' -> dcount c' = dcount c.
+Proof. exact nodelete_release_never_destroys. Qed.
+Print Assumptions C12_nodelete_release_never_destroys.
+
 (** The ledger is not vacuous: the variant with the decrement first and no alias test is caught by it. *)
 Theorem C12_decfirst_variant_refuted :
-  let s := run (init 1) [ONew 0 5] in
-  Inv s /\ bad (copy_assign s 0 0) = false /\ bad (copy_assign_decfirst s 0 0) = true.
+  let s := run alldef (init 1) [ONew 0 5] in
+  Inv s /\ bad (copy_assign alldef s 0 0) = false /\ bad (copy_assign_decfirst alldef s 0 0) = true.
 Proof. exact copy_assign_decfirst_refuted. Qed.
 Print Assumptions C12_decfirst_variant_refuted.
 
 (** Concurrent part.  For every number of threads (length of [hs]), every initial distribution [hs] of at least one
     handle, and every interleaving [tr] of copy (begin, atomic increment), release (atomic decrement-and-test,
-    Deleter), hand-over and use events: the counter equals the number of complete handles, the object is destroyed
+    Deleter), hand-over, use and clone-read (unify) events: the counter equals the number of complete handles, the object is destroyed
     at most once, never while any thread holds a handle or is in the middle of a copy, and it has been destroyed
     when all threads have let go; no event misbehaves (resurrection, underflow, use after destruction). *)
 Theorem C12_concurrent_invariant : forall hs tr st,
